@@ -99,6 +99,16 @@ Stack3(d, a, b) ==
   /\ Live(d) /\ Live(a) /\ Live(b) /\ Dn(a) = Dn(b)
   /\ Dn(d) = Dn(a) /\ Dm(d) = Dm(a) + Dm(b) /\ Disjoint(d, a) /\ Disjoint(d, b)
   /\ Put(d, StackSem(Value(a), Value(b))) /\ UNCHANGED objs
+\* mzd_extract_u / mzd_extract_l: the k x k upper / lower triangle (k = min of the dimensions), destination exactly k x k
+ExtractTri2(d, a, upper) ==
+  /\ Live(d) /\ Live(a) /\ LET k == Min({Dm(a), Dn(a)}) IN Dm(d) = k /\ Dn(d) = k
+  /\ Disjoint(d, a)
+  /\ Put(d, IF upper THEN ExtractUSem(Value(a)) ELSE ExtractLSem(Value(a))) /\ UNCHANGED objs
+\* mzd_copy_row(B, i, A, j): row j of A over the first Dn(a) entries of row i of B; also inside one matrix
+CopyRow2(b, i, a, j) ==
+  /\ Live(b) /\ Live(a) /\ i < Dm(b) /\ j < Dm(a) /\ Dn(b) >= Dn(a)
+  /\ Same(b, a) \/ Disjoint(b, a)
+  /\ Put(b, CopyRowSem(Value(b), i, Value(a), j)) /\ UNCHANGED objs
 SetUi(h, v) == Live(h) /\ Put(h, SetUiSem(Value(h), v)) /\ UNCHANGED objs
 
 \* in-place row / column operations
